@@ -709,7 +709,7 @@ class Executor:
         if isinstance(f, tuple) and f[0] == "boundmethod":
             return self.call_method(f[1], f[2], args, kwargs, starkw, st, node)
         if isinstance(f, tuple) and f[0] == "builtin":
-            return f[1](self, st, args, kwargs, node)
+            return f[1](self, st, args, kwargs if starkw is None else {**kwargs, "**": starkw}, node)
         if isinstance(f, tuple) and f[0] == "classattr":
             # Class.method(...)  (classmethod / staticmethod call through the class)
             return self.call_method(f[1], f[2], args, kwargs, starkw, st, node)
@@ -876,6 +876,9 @@ class Executor:
         if len(argv) > len(params) and a.vararg is None:
             raise Unsupported(f"too many positional args for {getattr(fn, 'name', 'lambda')}")
         kw = dict(kwargs)
+        if starkw is not None and isinstance(st.deref(starkw), PyDict):
+            kw = {**st.deref(starkw).items, **kw}
+            starkw = None
         for i, p in enumerate(params):
             if i < len(argv):
                 loc[p] = argv[i]
